@@ -132,6 +132,28 @@ def run(ctx):
             except Exception as ex: e['raised'] = type(ex).__name__
             seq.append(e)
         traces.append(dict(ev=seq)); ctx.mark(('refused call with rate', b, r0, r2))
+    # positional construction Keccak(b, c): the second positional argument is the CAPACITY
+    for b, c, dl in ((1600, 512, 256), (1600, 1024, 64), (200, 40, 64), (800, 256, 128), (25, 5, 13)):
+        M = msg(rnd, 8 * 11, 0, 0); e = dict(op='call', b=b, r=b - c, d=dl, nist=True, m=B(M), bitlen=-1, raised='', obs=[])
+        try: e['obs'] = B(Keccak(b, c, len=dl)(M))
+        except Exception as ex: e['raised'] = type(ex).__name__
+        traces.append(dict(ev=[e])); ctx.mark(('positional', b, c))
+    # a per-call rate / setrate() that the object refuses (rate above 1536), exception caught, then ordinary calls and a duplex call at the configured rate
+    for b, r0, bad in ((1600, 1088, 1580), (1600, 576, 1599)):
+        h = Keccak(b=b, r=r0, len=64); seq = []
+        for step in range(4):
+            if step == 1:
+                try: h(b'abc', None, bad)
+                except Exception: pass
+                continue
+            if step == 2:
+                try: h.setrate(bad + 1)
+                except Exception: pass
+            M = msg(rnd, 8 * (5 + step), 0, 0); e = dict(op='call', b=b, r=r0, d=64, nist=True, m=B(M), bitlen=-1, raised='', obs=[])
+            try: e['obs'] = B(h(M))
+            except Exception as ex: e['raised'] = type(ex).__name__
+            seq.append(e)
+        traces.append(dict(ev=seq)); ctx.mark(('refused rate', b, r0, bad))
     # one long-lived object called at several rates (larger, then smaller, then the configured one): per-call r applies to that call only
     from crysp.keccak import Keccak
     for b, r0, rs in ((1600, 1088, (1344, None, 1027, 1024, None)), (200, 72, (136, None, 40, None)), (25, 11, (20, 3, None, 24, None)), (200, 72, (40, 136, None)), (1600, 1088, (576, None))) + (((800, 544, (700, None, 100, None)),) if big else ()):
